@@ -97,6 +97,9 @@ pub(crate) enum Token<'a> {
 
     /// Unknown token, not expected by the lexer, e.g. "№"
     Illegal,
+
+    /// End of input (never produced by the tokenizer itself)
+    Eof,
 }
 
 /// Peekable iterator over a char sequence.
@@ -227,8 +230,10 @@ impl<'a> Iterator for Tokenizer<'a> {
             '"' => {
                 self.skip_while(|c, esc| c != '"' || esc);
 
-                // skip closing "
-                self.bump()?;
+                // skip closing " (if it is missing, this is not a string)
+                if self.bump().is_none() {
+                    return Some(Illegal);
+                }
 
                 // this reads the string including escape characters
                 String(self.read_str(start + 1, self.offset() - 1))
